@@ -112,6 +112,8 @@ type Exec struct {
 	initRoot   *ssa.Function
 	overridePos, overrideFn string
 	nowCount   int
+	lastInstr  ssa.Instruction
+	lastFr     *frame
 }
 
 func (ex *Exec) pos() string {
@@ -786,6 +788,7 @@ func (ex *Exec) runBlock(fr *frame) {
 		}
 		ex.cur = in
 		ex.curFr = fr
+		ex.lastInstr, ex.lastFr = in, fr
 		if ex.visit(fr, in) {
 			return
 		}
